@@ -70,7 +70,7 @@ class Plan:
     def render(self):
         lines = []
         for k, v in sorted(self.knobs.items()):
-            if v is None:
+            if v is None or k in ("symlinks",):      # 'symlinks' is prepared by run_plan, not by rtsim
                 continue
             lines.append("knob %s %s" % (k, v))
         for i, t in enumerate(self.ops):
@@ -162,6 +162,11 @@ def run_plan(ctx, plan, workdir, variant="real", san="asan", timeout=120):
     if os.path.exists(root):
         shutil.rmtree(root)
     os.makedirs(root)
+    for spec in filter(None, str(plan.knobs.get("symlinks") or "").split(",")):
+        # pre-existing state of the file system: <link>:<target directory>, both relative to the root
+        link, target = spec.split(":")
+        os.makedirs(os.path.join(root, target))
+        os.symlink(target, os.path.join(root, link))
     planf = os.path.join(workdir, "plan.txt")
     with open(planf, "w") as f:
         f.write(plan.render())
